@@ -201,7 +201,7 @@ func c19stream(r *vk.Run, col *collector) {
 					target = target[:4<<20]
 				}
 				var bs, max uint64 // default parameters …
-				if idx%3 == 1 { // … and, for a third of the cases, small explicit ones to force many operations
+				if idx%3 == 1 {    // … and, for a third of the cases, small explicit ones to force many operations
 					bs = uint64(1 + rng.Intn(300))
 					max = uint64(1 + rng.Intn(5000))
 					if size > 256<<10 { // keep the operation count of the largest cases bounded
